@@ -42,7 +42,7 @@ POOL = [
     ('0.0', 0.0), ('5.0', 5.0), ('0.5', 0.5), ('1.0', 1.0), ('nan', NAN), ('inf', INF), ('-inf', -INF),
     ('Fraction(1,2)', fractions.Fraction(1, 2)), ('Fraction(5)', fractions.Fraction(5)), ('Decimal(5)', decimal.Decimal(5)),
     ('Decimal(0.5)', decimal.Decimal('0.5')), ('2**70', 2 ** 70),
-    ("''", ''), ("'a'", 'a'), ("'ab'", 'ab'), ("'b'", 'b'), ("b''", b''), ("b'a'", b'a'), ("b'ab'", b'ab'), ("b'b'", b'b'),
+    ("''", ''), ("'a'", 'a'), ("'ab'", 'ab'), ("'b'", 'b'), ("'cab'", 'cab'), ("'abc'", 'abc'), ("b'cab'", b'cab'), ("b''", b''), ("b'a'", b'a'), ("b'ab'", b'ab'), ("b'b'", b'b'),
     ('()', ()), ('(1,)', (1,)), ('(1,2)', (1, 2)), ('(1.5,2.5)', (1.5, 2.5)), ('(nan,1)', (NAN, 1)), ('(1,nan)', (1, NAN)),
     ("('a',1)", ('a', 1)), ('(5,1)', (5, 1)), ('(1,2,3)', (1, 2, 3)), ('(0,10)', (0, 10)), ('(10,0)', (10, 0)), ('(-1,5)', (-1, 5)),
     ('(5,11)', (5, 11)), ('(0,0)', (0, 0)), ('(True,1)', (True, 1)), ('(None,1)', (None, 1)), ('[1,2] as range', [1, 2]),
@@ -84,7 +84,7 @@ def all_configs(tier):
         add('Action', allow_None=an)
         add('Dict', allow_None=an)
         add('XYCoordinates', allow_None=an)
-        for rx in (None, '^a.*$', 'b$'):
+        for rx in (None, '^a.*$', 'b$', 'ab'):
             add('String', allow_None=an, regex=rx)
             add('Bytes', allow_None=an, regex=rx)
         for named in (True, False):
@@ -102,7 +102,7 @@ def all_configs(tier):
         for ln in (1, 2):
             add('Tuple', allow_None=an, length=ln)
             add('NumericTuple', allow_None=an, length=ln)
-        for b in ((0, None), (1, 2), (None, 1), None):
+        for b in ((0, None), (1, 2), (None, 1), None, (0, 0), (None, 0)):
             for it in (None, 'int', 'int_str'):
                 add('List', allow_None=an, bounds=b, item_type=it)
             add('HookList', allow_None=an, bounds=b)
